@@ -56,7 +56,23 @@ CHECKS = {
  "C18": ("exploration",
    "Memory-safety monitors as oracles over bounded-exhaustive shape sets (C01 boundary windows, C13 ENOBUFS patterns, C15 0..66 attachments, C12 crash indices, regions of every boundary length incl. platform-level zero length): AddressSanitizer build with kernel-boundary range checks re-implemented in the interposer, two allocation fill bytes on the plain build, debug assertions and core ub_checks everywhere.",
    E2NOTE + " ASan detects only errors on executed paths of the enumerated shapes.", "bounded-exhaustive shape enumeration executed under AddressSanitizer / fill-differential monitors", "DESIGN.md §4 C18"),
+ "C04": ("exploration",
+   "Bounded-exhaustive enumeration: every sequence of length <=3 (5 thorough; covering family of length 4 quick) over eight item kinds (sender, receiver, opaque sender/receiver, bytes sender/receiver, region, data), flat and nested into Option/tuple/map positions, in a small and a 3-packet message; 0..63 endpoints per message; transfer chains of a receiver over 1..3 (5) hops (same thread, other thread, forked process) with a backlog before, in transit, between and after hops; every received endpoint probed with a nonce against the channel attached at that position.",
+   E2NOTE, "bounded-exhaustive input/history enumeration on the real code (E2)", "DESIGN.md §4 C04"),
+ "C05": ("exploration",
+   "Bounded-exhaustive enumeration of region lengths {0,1,2,P-1,P,P+1,2P-1,2P,2P+1,1 MiB,(32 MiB)} x constructor x 0..3 clones x reader (same process / forked child) x read moment (on receipt / after all sender-side copies and the carrier are gone), ordered pairs/triples and rotations of up to 4 (8) regions per message, on the os, memfd and in-process builds.",
+   E2NOTE, "bounded-exhaustive input/configuration enumeration on the real code (E2) on three builds", "DESIGN.md §4 C05"),
+ "C08": ("model_checking",
+   "Stateless model checking (<=2/3 deviations) of a server task (new, accept) against a client task (connect, 1-3 messages of mixed size incl. attachments, drop) so that accept-first, connect-first, sends-before-accept and client-finished-before-accept all arise as schedules, with a fake and with a kernel-enforced small send buffer; plus forked clients that exit before accept (1..5/20 messages), 1..50/200 servers alive at once, servers dropped unused, exec'ed child while a server is alive; oracle: first message + rest in order then disconnected, distinct names, empty temp root and no listening descriptor afterwards.",
+   E1NOTE, "controlled-scheduler stateless exploration (E1) + sequential process-level cases", "DESIGN.md §4 C08"),
+ "C19": ("model_checking",
+   "Explicit-state BFS over the reference model (ideal unbounded FIFO channels with counted handles, endpoints in transit, regions, a receiver set, channel creation plain and through a one-shot server); every transition is one program executed from scratch on the os, memfd and in-process builds with every observable result compared with the model (values, order, empty, disconnected, send failures; select results per member).",
+   TRUST + "the model graph is cut at max 2 (3) channels, depth 5 (8), 2 queued messages, 4 live handles (reported; exhaustive=false when cut); agreement between builds is via agreement with the same model.", "explicit-state model search with full trace conformance replay on three builds of the implementation", "DESIGN.md §4 C19"),
+ "C20": ("model_checking",
+   "Stateless model checking (<=2 deviations, 3 for single-stream scenarios thorough; scheduling points before every system call/futex wait and after every transmission) of tasks that convert 1-2 receivers into streams, feed and consume them (block_on or a hand-written poll loop with a parking waker) against the real routing thread; oracle: each stream yields its channel's messages once, in order, then ends; a Pending poll is followed by a wake (else exact deadlock); streams do not influence one another.",
+   E1NOTE, "controlled-scheduler stateless exploration with deviation bounding (E1)", "DESIGN.md §4 C20"),
 }
+
 
 
 NOT_YET = "check under construction in this session (see DESIGN.md §4); not yet claimed"
